@@ -1,12 +1,15 @@
 #!/bin/bash
-# usage: seedall.sh [seed ids...]   -- runs every stored seeded change against the check(s) expected to catch it; one line per seed
+# usage: seedall.sh [seed ids...]   -- runs every stored seeded change against the check(s) expected to catch it (on a scratch
+# worktree, /repo is not touched); one line per seed
 cd /verif
-declare -A OVERRIDE=( [C06-1]="C04" [C06-2]="C04" [C05-2]="C05 C20" )
+declare -A OVERRIDE=( [C06-1]="C04" [C06-2]="C04" [C05-2]="C05 C20" [C05-3]="C02" [C12-3]="C10" [C16-3]="C16 C10" [C08-3]="C08 C04" )
+declare -A SKIP=( [C07-3]="neutralised by fix f308783 (see meta.json)" )
 ids=${@:-$(ls seeded | grep -E '^C[0-9]+-[0-9]+$')}
 for id in $ids; do
+  if [ -n "${SKIP[$id]}" ]; then echo "$id skipped: ${SKIP[$id]}"; continue; fi
   props=${OVERRIDE[$id]:-${id%%-*}}
-  out=$(harness/seedtest.sh /verif/seeded/$id $props 2>&1)
+  out=$(harness/seedtest2.sh /verif/seeded/$id $props 2>&1)
   nv=$(echo "$out" | grep -c "^VIOLATION")
   conc=$(echo "$out" | grep "^VIOLATION" | grep -vc "no-failing-input-found")
-  echo "$id by=$props violations=$nv concrete=$conc $(echo "$out" | grep -E 'repo dirty|does not apply|INFRA' | head -1)"
+  echo "$id by=$props violations=$nv concrete=$conc $(echo "$out" | grep -E 'does not apply|INFRA' | head -1)"
 done
